@@ -87,8 +87,12 @@ def satisfied(w):
     return z3.Or(w['deleted'], z3.And(hp, z3.UGE(pv, w['lsn'])))
 
 
-def check_maintenance(ctx, confirm=None):
+def check_maintenance(ctx, confirm=None, confirm_reclaim=None, with_reclaim=True, with_evict_rule=True):
     pat = r'^journal::manager::<impl>::maintenance$'
+    ob2 = ctx.ob('maintenance/reclaims-evictable', 'JournalManager::maintenance: when it returns Ok without a failed unlink, the queue is empty or the oldest remaining journal has a blocking watermark '
+                 '(a keyspace that is NOT deleted and whose persisted seqno is missing or below the lsn): a deleted keyspace never pins a journal (nor, through the watermark\'s handle, its own files), '
+                 'and after all keyspaces are flushed the journals go back to one', [pat]) if with_reclaim else None
+    bad2 = []
     ob = ctx.ob('maintenance/evict-rule', 'JournalManager::maintenance: unlinks only the oldest queued journal and only when each of its watermarks is satisfied '
                 '(keyspace deleted, or persisted seqno >= lsn); queue and byte counter follow; a failed unlink changes nothing', [pat])
     holder = {}
@@ -111,7 +115,10 @@ def check_maintenance(ctx, confirm=None):
     bad = []
     inc = [p for p in paths if p.status in ('error', 'timeout', 'loop_bound')]
     if inc:
-        ob.status = 'undecided'; ob.detail = f'executor: {inc[0].status} {inc[0].notes[-1:]}'; return
+        for o_ in (ob, ob2):
+            if o_ is not None:
+                o_.status = 'undecided'; o_.detail = f'executor: {inc[0].status} {inc[0].notes[-1:]}'
+        return
     jn = ex.src.struct_fields('journal::manager::JournalManager')
     for p in paths:
         if p.status != 'returned':
@@ -148,10 +155,15 @@ def check_maintenance(ctx, confirm=None):
                 problem = f'after {n_ok} successful unlinks the queue holds {left}, expected {want}'
         if problem is None and okp and not errp:
             # maintenance stopped: either the queue is empty or the oldest remaining journal is blocked
-            if n_ok < len(desc):
-                blk = z3.Or([z3.Not(satisfied(w)) for w in desc[n_ok]['wms']])
-                if ctx.sat(p.pc + [z3.Not(blk)], ob)[0] != z3.unsat:
-                    problem = None       # liveness (evicting everything evictable) is not part of the property; not flagged
+            if ob2 is not None and n_ok == len(rms):
+                ob2.reach += 1
+                if n_ok < len(desc):
+                    blk = z3.Or([z3.Not(satisfied(w)) for w in desc[n_ok]['wms']])
+                    r_, m_ = ctx.sat(p.pc + [z3.Not(blk)], ob2)
+                    if r_ != z3.unsat:
+                        dele = [w['name'] for w in desc[n_ok]['wms'] if m_ is not None and z3.is_true(m_.eval(w['deleted'], model_completion=True))]
+                        bad2.append((p, f'maintenance stops at journal{n_ok} although none of its watermarks blocks it' +
+                                     (f' (watermark {dele[0]} belongs to a deleted keyspace)' if dele else '') + ': the journal file, and the keyspace handles its watermarks hold, are never released'))
             sp = jm.fields[jn.index('disk_space_in_bytes')].val
             exp = holder['space']
             for d in desc[:n_ok]:
@@ -160,7 +172,12 @@ def check_maintenance(ctx, confirm=None):
                 problem = 'the journal byte counter does not match the journals that remain'
         if problem:
             bad.append((p, problem))
-    finish(ctx, ob, bad, 'journal-manager/evicts-needed-journal', confirm=confirm)
+    if with_evict_rule:
+        finish(ctx, ob, bad, 'journal-manager/evicts-needed-journal', confirm=confirm)
+    else:
+        ctx.obligations.remove(ob)
+    if ob2 is not None:
+        finish(ctx, ob2, bad2, 'journal-manager/evictable-journal-kept', confirm=confirm_reclaim or confirm)
 
 
 def check_stragglers(ctx):
@@ -385,7 +402,7 @@ def eviction_programs():
                            ('insert', A, k2, '32'), ('rotate', A), ('flush',), X, ('rotate', B), ('flush',), X]
     # a write that arrives after the memtable was sealed but before the flush tick runs lives only in the new active memtable and in the journal being sealed
     P['write-after-seal-before-flush'] = [T, ('ks', A), ('ks', B), ('insert', A, k1, '31'), ('rotate', A), ('insert', A, k2, '32'), ('flush',), X, ('insert', B, k1, '41'), ('rotate', B), ('insert', A, k3, '33'), ('flush',), X]
-    P['reopen-with-sealed-then-evict'] = [T, ('ks', A), ('ks', B), ('insert', B, k1, '41'), ('insert', A, k1, '31'), ('rotate', A), ('flush',), ('reopen',), ('check',), X,
+    P['reopen-with-sealed-then-evict'] = [T, ('ks', A), ('ks', B), ('insert', B, k1, '41'), ('insert', B, k3, '43'), ('insert', A, k1, '31'), ('rotate', A), ('flush',), ('reopen',), ('check',), X,
                                           ('insert', A, k2, '32'), ('rotate', A), ('flush',), X, ('rotate', B), ('flush',), X, ('insert', B, k2, '42'), ('rotate', A), ('flush',), X]
     P['digit-boundary'] = digit_boundary_program()
     return P
@@ -428,7 +445,7 @@ def run(ctx):
     # ... and finds them in the order they were sealed (oldest first), the newest one being the active journal
     c02.check_journal_order(ctx, confirm=lambda: native_eviction(ctx))
     c04.check_sealed(ctx, confirm=lambda: native_eviction(ctx))
-    c04.check_sealed(ctx, confirm=lambda: native_eviction(ctx), shape=((1, 0), (1, 0)), tag='/two-item-batches')
+    c04.check_sealed(ctx, confirm=lambda: native_eviction(ctx), shape=((1, 0), (1, 0)), tag='/two-item-batches', n_ks=1 if ctx.tier == 'quick' else 2)
     ctx.assumptions += [
         'E8: flushes of one keyspace are FIFO and get_highest_persisted_seqno is the highest seqno in its tables, so persisted >= s implies every record of that keyspace with seqno <= s is in tables',
         'C14 (checked separately): a record is applied to its memtable under the journal lock, so at sealing time get_highest_memtable_seqno >= every record of that keyspace in the sealed journal that is not yet in tables',
